@@ -1003,3 +1003,63 @@ def rule_R4g(ctx, rep, config="c-lib"):
                                   "behind the block as soon as the length reaches the allocated size" % (E, g_.where(), I, 1 - d.c), where=a.where(),
                                   witness=[g_.where(), a.where()])
     rep.floor("R4g", "element accesses behind a growth-on-demand", n, 2)
+
+
+# ---- R4h: differences of terminal codes do not overflow int ---------------------------------------------------------------------
+
+def rule_R4h(ctx, rep, config="c-lib"):
+    rep.rule("R4h", "terminal codes are the user's: any int >= 0 (and the library's own -1, -2).  The difference of two codes is therefore computed in a type wider "
+                    "than int or in unsigned (wrap-around) arithmetic, or in int only under a test that bounds the wide (or unsigned) difference between a code -- the maximum -- and the same subtrahend by a constant -- an int subtraction of two codes "
+                    "overflows for a code near INT_MAX (undefined behaviour; in practice a negative `range' that passes the size test and a huge allocation)")
+    from .r5 import _controlling_conditions
+    p = ctx.prog(config)
+    n = 0
+    for f in p.m.defined():
+        if f.module and not f.module.startswith("yaep."):
+            continue
+        memo = {}
+
+        def code_derived(op, depth=0):
+            o = strip_int_casts(f, op)
+            if o.get("k") != "i" or depth > 6:
+                return False
+            if o["v"] in memo:
+                return memo[o["v"]]
+            memo[o["v"]] = False
+            i = f.insts.get(o["v"])
+            r = False
+            if i is not None:
+                if i.op == "load":
+                    r = resolve_addr(f, i.ops[0]).last_field() == "symb.u.term.code"
+                elif i.op == "phi":
+                    r = any(code_derived(v, depth + 1) for (v, _) in i.d["incoming"])
+                elif i.op == "select":
+                    r = code_derived(i.ops[1], depth + 1) or code_derived(i.ops[2], depth + 1)
+            memo[o["v"]] = r
+            return r
+        for i in f.all_insts():
+            if i.op != "sub" or i.ty != "i32":
+                continue
+            if not (code_derived(i.ops[0]) and code_derived(i.ops[1])):
+                continue
+            if not i.d.get("nsw"):
+                continue      # unsigned (wrap-around) arithmetic: defined for all values, and exact when the minuend is not smaller
+            n += 1
+            rep.cover(p, [f.name])
+            key = "%s/code-difference#%d" % (f.name, n)
+            a, b = strip_int_casts(f, i.ops[0]), strip_int_casts(f, i.ops[1])
+            guarded = None
+            for (cc, pol) in _controlling_conditions(f, i.block.name):
+                for (x, y) in ((0, 1), (1, 0)):
+                    w = f.inst(cc.ops[x])
+                    if w is not None and w.op == "sub" and (w.ty == "i64" or not w.d.get("nsw")) and const_int(cc.ops[y]) is not None \
+                            and (strip_int_casts(f, w.ops[0]) == a or code_derived(w.ops[0])) and strip_int_casts(f, w.ops[1]) == b \
+                            and ((cc.d["pred"] in ("ult", "ule", "slt", "sle")) == (pol if x == 0 else not pol) or cc.d["pred"] in ("ult", "slt", "ule", "sle", "ugt", "uge", "sgt", "sge")):
+                        guarded = cc
+            if guarded is not None:
+                rep.ok("R4h", key, sample={"difference": i.where(), "bounded_by": guarded.where()})
+            else:
+                rep.violation("R4h", key, "the difference of two terminal codes is computed in int without a bound on it: with a code near INT_MAX (the library's own "
+                              "`error' terminal has code -2) the subtraction overflows -- a well-formed grammar fails with YAEP_NO_MEMORY or the code table is "
+                              "allocated with a garbage size", where=i.where(), witness=[i.where()])
+    rep.floor("R4h", "int differences of two terminal codes", n, 1)
